@@ -26,7 +26,8 @@ RULE = ("schedules of 1-8 queued requests (GET/POST with bodies, unique path and
         "passes, against scripted server replies: 200/404/500 or 300/301/302/303/307 with Location relative / absolute "
         "same host / other host / other scheme / https->http / missing; Content-Length, chunked or close-delimited "
         "framing; 0-3 passes of delay, 1-3 fragments; optional close after the reply; http and https clients; "
-        "redirectable on/off.  A case is non-trivial when >= 3 requests were queued and some reply was delayed, "
+        "redirectable on/off; methods GET/HEAD/POST/PUT mixed per request (HEAD replies carry a non-zero Content-Length and no "
+        "body) and clients constructed with method HEAD/POST.  A case is non-trivial when >= 3 requests were queued and some reply was delayed, "
         "fragmented or a redirect")
 MODELLED = ["response parsing (real Respondent) is abstracted to 'a complete reply with status s and Location l was "
             "consumed in this pass'; request building (real Requester) to the path that appears on the wire",
@@ -108,19 +109,19 @@ class FakeSock:
             if len(self.rx) < i + 4 + n:
                 return
             del self.rx[:i + 4 + n]
-            path = lines[0].split(" ")[1]
-            self.net.wire.append([self.conn_id, self.secure, HOSTS.index(self.ha), path])
+            verb, path = lines[0].split(" ")[:2]
+            self.net.wire.append([self.conn_id, self.secure, HOSTS.index(self.ha), path, verb])
             k = self.net.k
             self.net.k += 1
             r = self.net.replies[k] if k < len(self.net.replies) else {"status": 200}
-            data = render_reply(k, r)
+            data = render_reply(k, r, verb)
             nf = max(1, min(r.get("frags", 1), len(data)))
             step = -(-len(data) // nf)
             d = r.get("delay", 0)
             for j in range(0, len(data), step):
                 self.pending.append([d, data[j:j + step]])
                 d += 1
-            if r.get("close") or (r.get("framing") == "close" and r.get("status", 200) not in (204, 304)):
+            if closes_after(r, verb):
                 self.pending.append([d - 1, None])
 
     def tick(self):
@@ -148,20 +149,35 @@ def location_of(k, loc):
     return f"{'https' if loc.get('https') else 'http'}://{h}:{p}{path}"
 
 
-def render_reply(k, r):
+def reply_body(k, r):
+    return (f"body-of-reply-{k};" * r.get("blen", 1)).encode()
+
+
+def closes_after(r, verb):
+    """Does the scripted server close the connection after this reply?"""
+    bodiless = verb == "HEAD" or r.get("status", 200) in (204, 304)
+    return bool(r.get("close") or (r.get("framing") == "close" and not bodiless))
+
+
+def render_reply(k, r, verb="GET"):
     st = r.get("status", 200)
-    body = (f"body-of-reply-{k};" * r.get("blen", 1)).encode()
+    body = reply_body(k, r)
     lines = [f"HTTP/1.1 {st} {REASON.get(st, 'Status')}", "Content-Type: text/plain"]
     loc = location_of(k, r.get("loc"))
     if loc is not None:
         lines.append(f"Location: {loc}")
     fr = r.get("framing", "len")
-    if st in (204, 304):  # no body allowed
+    if st in (204, 304) and verb != "HEAD":  # no body allowed
         if r.get("close"):
             lines.append("Connection: close")
         return ("\r\n".join(lines) + "\r\n\r\n").encode("latin-1")
     if r.get("close") and fr != "close":
         lines.append("Connection: close")
+    if verb == "HEAD":  # as real servers do: the headers of the GET reply (non-zero Content-Length), no body
+        lines.append(f"Content-Length: {len(body)}")
+        if r.get("close"):
+            lines.append("Connection: close")
+        return ("\r\n".join(lines) + "\r\n\r\n").encode("latin-1")
     if fr == "len":
         lines.append(f"Content-Length: {len(body)}")
         payload = body
@@ -177,6 +193,12 @@ def render_reply(k, r):
 # --------------------------------------------------------------------------- implementation run
 
 _NET = None
+METHODS = ["GET", "HEAD", "POST", "PUT"]
+
+
+def ev_method(ev):
+    m = ev[2] if len(ev) > 2 else "GET"
+    return "POST" if m == "post" else m
 
 
 def _fake_classes():
@@ -235,9 +257,10 @@ def run_impl(case):
         tymist = tyming.Tymist(tyme=0.0)
         cls = FakeTls if case.get("https") else FakeClient
         connector = cls(tymth=tymist.tymen(), ha=HOSTS[0])
-        client = clienting.Client(connector=connector, redirectable=case.get("redirectable", True))
+        client = clienting.Client(connector=connector, redirectable=case.get("redirectable", True),
+                                  method=case.get("cmethod", "GET"))
         client.reopen()
-        trace, escaped = [], None
+        trace, escaped, bodies = [], None, []
         events = list(case["events"])
         extra = 0
         while events or extra < case.get("drain", 12):
@@ -246,11 +269,11 @@ def run_impl(case):
             else:
                 ev = ["pass"]; extra += 1
             if ev[0] == "enq":
-                t = ev[1]
-                if ev[2:] and ev[2] == "post":
-                    client.request(method="POST", path=f"/t{t}", body=f"payload {t}".encode(), tag=t)
+                t, m = ev[1], ev_method(ev)
+                if m in ("POST", "PUT"):
+                    client.request(method=m, path=f"/t{t}", body=f"payload {t}".encode(), tag=t)
                 else:
-                    client.request(method="GET", path=f"/t{t}", tag=t)
+                    client.request(method=m, path=f"/t{t}", tag=t)
                 continue
             net.tick()
             before = (len(client.responses), len(client.redirects))
@@ -261,17 +284,20 @@ def run_impl(case):
                 escaped = [len(trace), exn_kind(ex), str(ex)[:80]]
                 break
             after = (len(client.responses), len(client.redirects))
+            while len(bodies) < len(client.responses):  # the bytearray is shared with the respondent: copy at arrival
+                bodies.append(bytes(client.responses[len(bodies)]["body"]).hex())
             trace.append([after != before, bool(client.waited), len(client.requests), after[0], after[1]])
         entries = []
-        for r in client.responses:
+        for i, r in enumerate(client.responses):
             hist = [[h["status"], h["request"].get("tag")] for h in r.get("redirects", [])]
             entries.append({"status": r["status"], "tag": r["request"].get("tag"), "errored": bool(r["errored"]),
-                            "history": hist, "path": r["request"].get("path")})
+                            "history": hist, "path": r["request"].get("path"), "method": r["request"].get("method"),
+                            "body": bodies[i] if i < len(bodies) else None})
         wire = []
-        for cid, sec, hi, path in net.wire:
+        for cid, sec, hi, path, verb in net.wire:
             kind, num = ("req", int(path[2:])) if path.startswith("/t") else ("redir", int(path[2:]))
-            wire.append([cid, bool(sec), hi, kind, num])
-        return {"trace": trace, "entries": entries, "wire": wire, "escaped": escaped,
+            wire.append([cid, bool(sec), hi, kind, num, verb])
+        return {"trace": trace, "entries": entries, "wire": wire, "escaped": escaped, "unsent": len(client.connector.txbs),
                 "final": [bool(client.waited), len(client.requests), len(client.redirects)],
                 "conn_https": isinstance(client.connector, tcp.ClientTls), "replies_used": net.k}
     finally:
@@ -335,6 +361,33 @@ def oracle(case, obs):
         if refused and not e["errored"]:
             return "a refused redirect was delivered without errored"
         k += 1
+    # methods on the wire are the queued requests' methods; bodies intact (taken when the entry arrived)
+    meth = {ev[1]: ev_method(ev) for ev in case["events"] if ev[0] == "enq"}
+    for w in obs["wire"]:
+        if w[3] == "req" and w[5] != meth.get(w[4]):
+            return f"request {w[4]} went on the wire as {w[5]}, queued as {meth.get(w[4])}"
+    k = 0
+    for e, o in zip(obs["entries"], origins):
+        hops = len(e["history"])
+        k += hops
+        final = replies[k] if k < len(replies) else {"status": 200}
+        m = meth.get(o)
+        want = b"" if (m == "HEAD" or final.get("status", 200) in (204, 304)) else reply_body(k, final)
+        if e["body"] is not None and bytes.fromhex(e["body"]) != want:
+            return (f"entry for request {o} ({m}): body {bytes.fromhex(e['body'])[:40]!r} differs from the reply's body "
+                    f"{want[:40]!r}")
+        if e["method"] != m:
+            return f"entry for request {o} carries method {e['method']}, queued as {m}"
+        k += 1
+    # nothing left unsent / unanswered once the schedule has drained
+    closed = any(closes_after(replies[j] if j < len(replies) else {}, obs["wire"][j][5])
+                 for j in range(min(obs["replies_used"], len(obs["wire"]))))
+    waited, qlen, nredir = obs["final"]
+    if waited or qlen or obs["unsent"] or len(obs["entries"]) < len(tags):
+        return (f"after draining: {len(obs['entries'])} of {len(tags)} requests have a response entry, waited={waited}, "
+                f"{qlen} still queued, {obs['unsent']} request bytes unsent"
+                + ("; a server closed its connection and every request that reached the wire was answered"
+                   if closed and sum(1 for t in obs["trace"] if t[0]) == len(obs["wire"]) else ""))
     # https never downgraded
     if case.get("https"):
         if any(not w[1] for w in obs["wire"]) or not obs["conn_https"]:
@@ -372,6 +425,9 @@ def _conn_state(case, replies, k):
 
 
 def classify(case, obs, why):
+    # open finding: requests behind a server close are never sent / answered (no reconnect-and-resend, no errored entry)
+    if why.startswith("after draining") and why.endswith("every request that reached the wire was answered"):
+        return "C19-close-strands-queue"
     return None
 
 
@@ -409,6 +465,14 @@ def directed():
         {"events": _sched([1, 2]), "replies": [{"status": 302, "loc": rel, "close": True}, {"status": 200}]},
         {"events": _sched([1, 2]), "replies": [{"status": 302, "loc": {"host": 2, "https": False}, "close": True}, {"status": 200, "framing": "close"}, {"status": 200}]},
         {"events": [["pass"], ["pass"], ["enq", 9], ["pass"], ["enq", 4], ["enq", 7]], "replies": [{"status": 200, "delay": 3}, {"status": 304}, {"status": 308, "loc": rel}]},
+        # method interleavings around HEAD (HEAD replies carry a non-zero Content-Length and no body)
+        {"events": [["enq", 1, "GET"], ["enq", 2, "HEAD"], ["enq", 3, "GET"], ["enq", 4, "GET"]], "replies": [{}, {"blen": 3}, {"frags": 2}, {}]},
+        {"events": [["enq", 1, "HEAD"], ["enq", 2, "HEAD"], ["enq", 3, "GET"], ["enq", 4, "PUT"]], "replies": [{"blen": 2}, {}, {"blen": 2}, {}]},
+        {"cmethod": "HEAD", "events": [["enq", 1, "HEAD"], ["enq", 2, "GET"], ["enq", 3, "GET"]], "replies": [{}, {"blen": 2}, {}]},
+        {"cmethod": "HEAD", "events": [["enq", 1, "GET"], ["enq", 2, "POST"], ["enq", 3, "HEAD"]], "replies": [{"framing": "chunked"}, {}, {"delay": 1}]},
+        {"events": [["enq", 1, "POST"], ["enq", 2, "HEAD"], ["enq", 3, "PUT"], ["enq", 4, "HEAD"], ["enq", 5, "GET"]],
+         "replies": [{}, {"status": 404}, {"status": 204}, {"status": 302, "loc": rel}, {}, {"status": 200, "blen": 2}]},
+        {"events": [["enq", 1, "HEAD"], ["enq", 2, "GET"]], "replies": [{"status": 301, "loc": {"host": 1, "https": False}}, {"blen": 2}, {}]},
     ]
 
 
@@ -417,7 +481,7 @@ def gen_case(rng):
     tags = rng.sample(range(1, 60), n)
     events = []
     for t in tags:
-        events.append(["enq", t] + (["post"] if rng.random() < 0.3 else []))
+        events.append(["enq", t, rng.choices(METHODS, [5, 3, 2, 1])[0]])
         for _ in range(rng.choice([0, 0, 0, 1, 2, 4])):
             events.append(["pass"])
     if rng.random() < 0.3:
@@ -445,8 +509,8 @@ def gen_case(rng):
             r["frags"] = rng.randint(2, 3)
         fr = rng.random()
         if r["status"] != 304:
-            r["framing"] = "len" if fr < 0.6 else ("chunked" if fr < 0.9 else "close")
-        if rng.random() < 0.08:
+            r["framing"] = "len" if fr < 0.6 else ("chunked" if fr < 0.96 else "close")
+        if rng.random() < 0.03:
             r["close"] = True
         if rng.random() < 0.2:
             r["blen"] = rng.choice([0, 3, 40])
@@ -456,6 +520,8 @@ def gen_case(rng):
         case["https"] = True
     if rng.random() < 0.15:
         case["redirectable"] = False
+    if rng.random() < 0.2:
+        case["cmethod"] = rng.choice(["HEAD", "POST", "HEAD"])
     return case
 
 
@@ -528,7 +594,8 @@ def to_coq(case, obs):
             else:
                 l = "(Some {| HttpClient.l_host := %s; HttpClient.l_https := %s |})" % (
                     coq_option(loc.get("host"), coq_N, "N"), coq_bool(bool(loc.get("https"))))
-            closes = bool(r.get("close") or (r.get("framing") == "close" and r.get("status", 200) not in (204, 304)))
+            verb = obs["wire"][k][5] if k < len(obs["wire"]) else "GET"
+            closes = closes_after(r, verb)
             evs.append("(HttpClient.Pass (Some {| HttpClient.rp_id := %s; HttpClient.rp_status := %s; HttpClient.rp_loc := %s; "
                        "HttpClient.rp_close := %s |}))" % (coq_N(k), coq_N(r.get("status", 200)), l, coq_bool(closes)))
             k += 1
@@ -544,7 +611,10 @@ def to_coq(case, obs):
         coq_N(w[0]), coq_bool(w[1]), coq_N(w[2]),
         ("(HttpClient.WReq %s)" if w[3] == "req" else "(HttpClient.WRedir %s)") % coq_N(w[4])) for w in obs["wire"]],
         "HttpClient.wentry")
-    return ("{| HttpClient.c_https := %s; HttpClient.c_redirectable := %s; HttpClient.c_events := %s; HttpClient.c_trace := %s; "
+    meths = coq_list(["(%s, %s)" % (coq_N(ev[1]), coq_N(METHODS.index(ev_method(ev)))) for ev in case["events"] if ev[0] == "enq"], "N * N")
+    return ("{| HttpClient.c_https := %s; HttpClient.c_redirectable := %s; HttpClient.c_cmethod := %s; HttpClient.c_methods := %s; "
+            "HttpClient.c_events := %s; HttpClient.c_trace := %s; "
             "HttpClient.c_entries := %s; HttpClient.c_wire := %s |}" % (
                 coq_bool(bool(case.get("https"))), coq_bool(case.get("redirectable", True)),
+                coq_N(METHODS.index(case.get("cmethod", "GET"))), meths,
                 coq_list(evs, "HttpClient.event"), tr, ents, wire))
